@@ -10,10 +10,15 @@ stays the same otherwise." — for every pair (stored object, submitted object) 
 status subresource.
 
 Everything below is about `KG.Model.Strategy` (the strategies of apiserver-runtime wrapped by k8s
-`BeforeCreate`/`BeforeUpdate`) for ARBITRARY field-group types, metadata rules, stored and submitted objects.
+`BeforeCreate`/`BeforeUpdate`) for ARBITRARY field-group types, metadata rules, stored and submitted objects and
+for every rendering `sem` under which the code compares (`semanticEqual`).
 Hypotheses used, each discharged for the registrations of rest.go by `c20_registrations_*` below:
 * `WellShaped r`: the Go type has ObjectMeta, a `Spec` and a `Status` field;
 * `Consistent r`: a kind served with a status subresource uses a main strategy built with `subStatus = true`.
+
+"Change" is read in the API's view (`KG.Spec.Strategy.View`): spec and annotations as they render
+(`{}`/`[]`/`""` = missing), which since `933b50c` is also how the code compares them. The statements with
+`v.obj` are therefore the API-level ones; specialising `sem` to the identity gives the DeepEqual ones.
 -/
 namespace KG.Props.C20
 open KG.Model.Strategy KG.Spec.Strategy KG.Lemmas.Strategy
@@ -25,11 +30,11 @@ instance (r : Reg) : Decidable (WellShaped r) := by unfold WellShaped; infer_ins
 instance (r : Reg) : Decidable (Consistent r) := by unfold Consistent; infer_instance
 
 section
-variable {L A M S T : Type} [DecidableEq S] [DecidableEq A]
+variable {L A M S T A' S' : Type} [DecidableEq S'] [DecidableEq A']
 
 /-! ## Creation -/
 
-omit [DecidableEq S] [DecidableEq A] in
+omit [DecidableEq S'] [DecidableEq A'] in
 /-- Creation (exactly what the code does): generation 1; status is the zero value iff the main strategy was
     built with `subStatus` (and the type has a Status); spec, labels, annotations as submitted. -/
 theorem c20_create_exact (r : Reg) (mr : MetaRules L A M S T) (zero : T) (o o' : Obj L A M S T)
@@ -41,7 +46,7 @@ theorem c20_create_exact (r : Reg) (mr : MetaRules L A M S T) (zero : T) (o o' :
   unfold prepareForCreate
   cases hs : (r.subStatus && r.shape.hasStatus) <;> simp [hm]
 
-omit [DecidableEq S] [DecidableEq A] in
+omit [DecidableEq S'] [DecidableEq A'] in
 /-- **C20 (creation)**: for a kind served with a status subresource, creation clears status and sets
     generation to 1 — whatever status and generation the client submitted. -/
 theorem c20_create (r : Reg) (hc : Consistent r) (mr : MetaRules L A M S T) (zero : T) (o o' : Obj L A M S T)
@@ -57,9 +62,10 @@ theorem c20_create (r : Reg) (hc : Consistent r) (mr : MetaRules L A M S T) (zer
 /-! ## Status subresource -/
 
 /-- **C20 (status subresource)**: an accepted update through the status endpoint leaves spec, labels and
-    generation as stored; status and annotations are the submitted ones. -/
-theorem c20_status_update (r : Reg) (hw : WellShaped r) (mr : MetaRules L A M S T) (sub old o' : Obj L A M S T)
-    (h : beforeUpdate r .status mr sub old = .ok o') :
+    generation as stored (the very values, not just their renderings); status and annotations are the
+    submitted ones. -/
+theorem c20_status_update (sem : Sem A S A' S') (r : Reg) (hw : WellShaped r) (mr : MetaRules L A M S T)
+    (sub old o' : Obj L A M S T) (h : beforeUpdate sem r .status mr sub old = .ok o') :
     o'.spec = old.spec ∧ o'.labels = old.labels ∧ o'.generation = old.generation ∧
     o'.status = sub.status ∧ o'.annotations = sub.annotations := by
   obtain ⟨_, _, rfl, _, _⟩ := beforeUpdate_ok h
@@ -69,8 +75,8 @@ theorem c20_status_update (r : Reg) (hw : WellShaped r) (mr : MetaRules L A M S 
 /-! ## Main resource -/
 
 /-- Main-resource update, status (exactly what the code does). -/
-theorem c20_main_update_exact (r : Reg) (hw : WellShaped r) (mr : MetaRules L A M S T) (sub old o' : Obj L A M S T)
-    (h : beforeUpdate r .main mr sub old = .ok o') :
+theorem c20_main_update_exact (sem : Sem A S A' S') (r : Reg) (hw : WellShaped r) (mr : MetaRules L A M S T)
+    (sub old o' : Obj L A M S T) (h : beforeUpdate sem r .main mr sub old = .ok o') :
     o'.status = (if r.subStatus then old.status else sub.status) ∧
     o'.spec = sub.spec ∧ o'.labels = sub.labels ∧ o'.annotations = sub.annotations := by
   obtain ⟨_, _, rfl, _, _⟩ := beforeUpdate_ok h
@@ -80,17 +86,17 @@ theorem c20_main_update_exact (r : Reg) (hw : WellShaped r) (mr : MetaRules L A 
 
 /-- **C20 (main resource, status)**: for a kind served with a status subresource an accepted main-resource
     update never changes the status. -/
-theorem c20_main_update_status (r : Reg) (hw : WellShaped r) (hc : Consistent r) (mr : MetaRules L A M S T)
-    (sub old o' : Obj L A M S T) (hserved : r.served = true)
-    (h : beforeUpdate r .main mr sub old = .ok o') : o'.status = old.status := by
-  have := (c20_main_update_exact r hw mr sub old o' h).1
+theorem c20_main_update_status (sem : Sem A S A' S') (r : Reg) (hw : WellShaped r) (hc : Consistent r)
+    (mr : MetaRules L A M S T) (sub old o' : Obj L A M S T) (hserved : r.served = true)
+    (h : beforeUpdate sem r .main mr sub old = .ok o') : o'.status = old.status := by
+  have := (c20_main_update_exact sem r hw mr sub old o' h).1
   simpa [hc hserved] using this
 
 /-- the main strategy's effect on generation, spec and annotations (well-shaped kinds) -/
-theorem main_prepare_generation (r : Reg) (hw : WellShaped r) (sub old : Obj L A M S T) :
-    let p := updatePrepare r .main { sub with generation := old.generation } old
+theorem main_prepare_generation (sem : Sem A S A' S') (r : Reg) (hw : WellShaped r) (sub old : Obj L A M S T) :
+    let p := updatePrepare sem r .main { sub with generation := old.generation } old
     p.spec = sub.spec ∧ p.annotations = sub.annotations ∧
-    p.generation = (if sub.spec ≠ old.spec ∨ sub.annotations ≠ old.annotations
+    p.generation = (if sem.spec sub.spec ≠ sem.spec old.spec ∨ sem.annotations sub.annotations ≠ sem.annotations old.annotations
                     then toI64 (old.generation + 1) else old.generation) := by
   obtain ⟨hm, hs, ht⟩ := hw
   simp only [updatePrepare, prepareForUpdate, hm, hs, ht]
@@ -98,18 +104,21 @@ theorem main_prepare_generation (r : Reg) (hw : WellShaped r) (sub old : Obj L A
 
 /-- **C20 (generation)**: for every stored object (its generation is an `int64`) and every submitted object,
     an accepted main-resource update has `generation' = generation + 1` exactly when the spec or the
-    annotations changed, and `generation' = generation` otherwise. The submitted generation is irrelevant. -/
-theorem c20_main_update_generation (r : Reg) (hw : WellShaped r) (mr : MetaRules L A M S T)
+    annotations changed — as rendered by the API: `sem` — and `generation' = generation` otherwise.
+    The submitted generation is irrelevant. -/
+theorem c20_main_update_generation (sem : Sem A S A' S') (r : Reg) (hw : WellShaped r) (mr : MetaRules L A M S T)
     (sub old o' : Obj L A M S T) (hg : isI64 old.generation)
-    (h : beforeUpdate r .main mr sub old = .ok o') :
-    (o'.generation = old.generation + 1 ↔ (o'.spec ≠ old.spec ∨ o'.annotations ≠ old.annotations)) ∧
-    (¬ (o'.spec ≠ old.spec ∨ o'.annotations ≠ old.annotations) → o'.generation = old.generation) := by
+    (h : beforeUpdate sem r .main mr sub old = .ok o') :
+    (o'.generation = old.generation + 1 ↔
+      (sem.spec o'.spec ≠ sem.spec old.spec ∨ sem.annotations o'.annotations ≠ sem.annotations old.annotations)) ∧
+    (¬ (sem.spec o'.spec ≠ sem.spec old.spec ∨ sem.annotations o'.annotations ≠ sem.annotations old.annotations) →
+      o'.generation = old.generation) := by
   obtain ⟨_, _, rfl, _, hdec⟩ := beforeUpdate_ok h
-  obtain ⟨hsp, han, hgen⟩ := main_prepare_generation r hw sub old
+  obtain ⟨hsp, han, hgen⟩ := main_prepare_generation sem r hw sub old
   simp only at hsp han hgen hdec ⊢
   rw [hgen] at hdec
   rw [hsp, han, hgen]
-  by_cases hch : sub.spec ≠ old.spec ∨ sub.annotations ≠ old.annotations
+  by_cases hch : sem.spec sub.spec ≠ sem.spec old.spec ∨ sem.annotations sub.annotations ≠ sem.annotations old.annotations
   · simp only [hch, if_true] at hdec ⊢
     have := toI64_succ_of_ge hg hdec
     simp [this]
@@ -117,47 +126,64 @@ theorem c20_main_update_generation (r : Reg) (hw : WellShaped r) (mr : MetaRules
     simp only [not_false_eq_true, forall_const, and_true, iff_false]
     omega
 
-/-! ## The judge (what the harness evaluates on the real code's answers) holds on the model -/
+/-- Corollary in terms of the decoded values: an update that leaves spec and annotations `DeepEqual` to the
+    stored ones (a no-op PUT, a label-only or status-only change — the original defect) keeps the generation. -/
+theorem c20_main_update_noop (sem : Sem A S A' S') (r : Reg) (hw : WellShaped r) (mr : MetaRules L A M S T)
+    (sub old o' : Obj L A M S T) (hg : isI64 old.generation)
+    (h : beforeUpdate sem r .main mr sub old = .ok o')
+    (hs : sub.spec = old.spec) (ha : sub.annotations = old.annotations) : o'.generation = old.generation := by
+  obtain ⟨_, hsp, _, han⟩ := c20_main_update_exact sem r hw mr sub old o' h
+  apply (c20_main_update_generation sem r hw mr sub old o' hg h).2
+  rw [hsp, han, hs, ha]; simp
 
-omit [DecidableEq S] [DecidableEq A] in
-theorem c20_judge_create [DecidableEq T] (r : Reg) (hc : Consistent r) (mr : MetaRules L A M S T) (zero : T)
-    (o o' : Obj L A M S T) (h : beforeCreate r mr zero o = .ok o') :
-    judgeCreate r.served zero o' = [] := by
+/-! ## The judge (what the harness evaluates on the real code's answers) holds on the model, in every view -/
+
+variable {L' T' : Type} [DecidableEq L'] [DecidableEq T']
+
+omit [DecidableEq S'] [DecidableEq A'] [DecidableEq L'] in
+theorem c20_judge_create (r : Reg) (hc : Consistent r) (mr : MetaRules L A M S T)
+    (v : View L A S T L' A' S' T') (zero : T) (o o' : Obj L A M S T) (h : beforeCreate r mr zero o = .ok o') :
+    judgeCreate r.served (v.status zero) (v.obj o') = [] := by
   obtain ⟨hg, _⟩ := c20_create_exact r mr zero o o' h
   cases hs : r.served
-  · simp [judgeCreate, check, hg]
+  · simp [judgeCreate, check, View.obj, hg]
   · have := (c20_create r hc mr zero o o' hs h).2
-    simp [judgeCreate, check, hg, this]
+    simp [judgeCreate, check, View.obj, hg, this]
 
-theorem c20_judge_status [DecidableEq L] (r : Reg) (hw : WellShaped r) (mr : MetaRules L A M S T)
-    (sub old o' : Obj L A M S T) (h : beforeUpdate r .status mr sub old = .ok o') :
-    judgeStatusUpdate old o' = [] := by
-  obtain ⟨h1, h2, h3, _, _⟩ := c20_status_update r hw mr sub old o' h
-  simp [judgeStatusUpdate, check, h1, h2, h3]
+omit [DecidableEq T'] in
+theorem c20_judge_status (r : Reg) (hw : WellShaped r) (mr : MetaRules L A M S T)
+    (v : View L A S T L' A' S' T') (sub old o' : Obj L A M S T)
+    (h : beforeUpdate v.sem r .status mr sub old = .ok o') :
+    judgeStatusUpdate (v.obj old) (v.obj o') = [] := by
+  obtain ⟨h1, h2, h3, _, _⟩ := c20_status_update v.sem r hw mr sub old o' h
+  simp [judgeStatusUpdate, check, View.obj, h1, h2, h3]
 
-theorem c20_judge_main [DecidableEq T] (r : Reg) (hw : WellShaped r) (hc : Consistent r) (mr : MetaRules L A M S T)
-    (sub old o' : Obj L A M S T) (hg : isI64 old.generation)
-    (h : beforeUpdate r .main mr sub old = .ok o') :
-    judgeMainUpdate r.served old o' = [] := by
-  obtain ⟨hiff, hkeep⟩ := c20_main_update_generation r hw mr sub old o' hg h
-  have hst : r.served = true → o'.status = old.status := fun hs => c20_main_update_status r hw hc mr sub old o' hs h
-  unfold judgeMainUpdate changed check
-  have h1 : (!r.served || o'.status == old.status) = true := by
+omit [DecidableEq L'] in
+/-- **C20, API level, main resource**: every accepted main-resource update of a well-shaped, consistently
+    registered kind meets both main-resource clauses in the API's view — also when the request spells empty
+    values out. -/
+theorem c20_judge_main (r : Reg) (hw : WellShaped r) (hc : Consistent r) (mr : MetaRules L A M S T)
+    (v : View L A S T L' A' S' T') (sub old o' : Obj L A M S T) (hg : isI64 old.generation)
+    (h : beforeUpdate v.sem r .main mr sub old = .ok o') :
+    judgeMainUpdate r.served (v.obj old) (v.obj o') = [] := by
+  obtain ⟨hiff, hkeep⟩ := c20_main_update_generation v.sem r hw mr sub old o' hg h
+  have hst : r.served = true → o'.status = old.status :=
+    fun hs => c20_main_update_status v.sem r hw hc mr sub old o' hs h
+  unfold judgeMainUpdate changed check View.obj
+  have h1 : (!r.served || v.status o'.status == v.status old.status) = true := by
     cases hs : r.served
     · simp
     · simp [hst hs]
-  rw [h1]
-  by_cases hch : o'.spec ≠ old.spec ∨ o'.annotations ≠ old.annotations
-  · have : (o'.spec != old.spec || o'.annotations != old.annotations) = true := by
+  simp only [h1]
+  by_cases hch : v.sem.spec o'.spec ≠ v.sem.spec old.spec ∨ v.sem.annotations o'.annotations ≠ v.sem.annotations old.annotations
+  · have : (v.sem.spec o'.spec != v.sem.spec old.spec || v.sem.annotations o'.annotations != v.sem.annotations old.annotations) = true := by
       rcases hch with h | h <;> simp [h]
     simp [this, hiff.2 hch]
-  · have : (o'.spec != old.spec || o'.annotations != old.annotations) = false := by
-      have h' : o'.spec = old.spec ∧ o'.annotations = old.annotations := by
-        constructor
-        · exact Classical.byContradiction fun hne => hch (Or.inl hne)
-        · exact Classical.byContradiction fun hne => hch (Or.inr hne)
-      simp [h'.1, h'.2]
-    simp [this, hkeep hch]
+  · have h' : v.sem.spec o'.spec = v.sem.spec old.spec ∧ v.sem.annotations o'.annotations = v.sem.annotations old.annotations := by
+      constructor
+      · exact Classical.byContradiction fun hne => hch (Or.inl hne)
+      · exact Classical.byContradiction fun hne => hch (Or.inr hne)
+    simp [h'.1, h'.2, hkeep hch]
 
 /-! ## Every history through the API
 
@@ -168,7 +194,7 @@ every history meets the judge. -/
 
 def GenOk (st : Option (Obj L A M S T)) : Prop := ∀ o, st = some o → isI64 o.generation ∧ 1 ≤ o.generation
 
-omit [DecidableEq S] [DecidableEq A] in
+omit [DecidableEq S'] [DecidableEq A'] in
 theorem genOk_create (r : Reg) (mr : MetaRules L A M S T) (zero : T) (o : Obj L A M S T) :
     GenOk (beforeCreate r mr zero o).toOption := by
   intro o' h
@@ -180,8 +206,8 @@ theorem genOk_create (r : Reg) (mr : MetaRules L A M S T) (zero : T) (o : Obj L 
     have := (c20_create_exact r mr zero o x hb).1
     rw [this]; unfold isI64 i64Lo i64Hi; omega
 
-theorem genOk_step (r : Reg) (hw : WellShaped r) (mr : MetaRules L A M S T) (zero : T)
-    (st : Option (Obj L A M S T)) (a : Api L A M S T) (h : GenOk st) : GenOk (apiStep r mr zero st a) := by
+theorem genOk_step (sem : Sem A S A' S') (r : Reg) (hw : WellShaped r) (mr : MetaRules L A M S T) (zero : T)
+    (st : Option (Obj L A M S T)) (a : Api L A M S T) (h : GenOk st) : GenOk (apiStep sem r mr zero st a) := by
   cases st with
   | none =>
     cases a with
@@ -199,7 +225,7 @@ theorem genOk_step (r : Reg) (hw : WellShaped r) (mr : MetaRules L A M S T) (zer
     | delete => intro _ h'; simp [apiStep] at h'
     | update ep o =>
       simp only [apiStep]
-      cases hb : beforeUpdate r ep mr o cur with
+      cases hb : beforeUpdate sem r ep mr o cur with
       | error e => simpa using h
       | ok o' =>
         intro x hx
@@ -207,15 +233,14 @@ theorem genOk_step (r : Reg) (hw : WellShaped r) (mr : MetaRules L A M S T) (zer
         subst hx
         cases ep with
         | status =>
-          have := (c20_status_update r hw mr o cur o' hb).2.2.1
+          have := (c20_status_update sem r hw mr o cur o' hb).2.2.1
           rw [this]; exact hcur
         | main =>
-          obtain ⟨hiff, hkeep⟩ := c20_main_update_generation r hw mr o cur o' hcur.1 hb
-          obtain ⟨_, _, _, hnn, hdec⟩ := beforeUpdate_ok hb
-          by_cases hch : o'.spec ≠ cur.spec ∨ o'.annotations ≠ cur.annotations
+          obtain ⟨hiff, hkeep⟩ := c20_main_update_generation sem r hw mr o cur o' hcur.1 hb
+          by_cases hch : sem.spec o'.spec ≠ sem.spec cur.spec ∨ sem.annotations o'.annotations ≠ sem.annotations cur.annotations
           · have hg := hiff.2 hch
             obtain ⟨_, _, heq, _, _⟩ := beforeUpdate_ok hb
-            obtain ⟨_, _, hgen⟩ := main_prepare_generation r hw o cur
+            obtain ⟨_, _, hgen⟩ := main_prepare_generation sem r hw o cur
             have hrange : isI64 o'.generation := by
               rw [heq]; simp only at hgen ⊢; rw [hgen]
               split
@@ -224,119 +249,26 @@ theorem genOk_step (r : Reg) (hw : WellShaped r) (mr : MetaRules L A M S T) (zer
             exact ⟨hrange, by omega⟩
           · rw [hkeep hch]; exact hcur
 
-theorem genOk_run (r : Reg) (hw : WellShaped r) (mr : MetaRules L A M S T) (zero : T)
-    (st : Option (Obj L A M S T)) (as : List (Api L A M S T)) (h : GenOk st) : GenOk (apiRun r mr zero st as) := by
+theorem genOk_run (sem : Sem A S A' S') (r : Reg) (hw : WellShaped r) (mr : MetaRules L A M S T) (zero : T)
+    (st : Option (Obj L A M S T)) (as : List (Api L A M S T)) (h : GenOk st) :
+    GenOk (apiRun sem r mr zero st as) := by
   induction as generalizing st with
   | nil => exact h
-  | cons a as ih => exact ih _ (genOk_step r hw mr zero st a h)
-
-/-- **C20 over histories**: after ANY list of API requests from the empty state, any further accepted
-    main-resource update obeys the generation rule and the status clause — no hypothesis on the stored
-    generation is left. -/
-theorem c20_history [DecidableEq T] (r : Reg) (hw : WellShaped r) (hc : Consistent r) (mr : MetaRules L A M S T)
-    (zero : T) (hist : List (Api L A M S T)) (cur sub o' : Obj L A M S T)
-    (hreach : apiRun r mr zero none hist = some cur)
-    (h : beforeUpdate r .main mr sub cur = .ok o') :
-    judgeMainUpdate r.served cur o' = [] ∧ 1 ≤ cur.generation := by
-  have hok := genOk_run r hw mr zero none hist (fun _ h => by cases h) cur hreach
-  exact ⟨c20_judge_main r hw hc mr sub cur o' hok.1 h, hok.2⟩
-
-/-! ## The property in the API's view (what a client can observe)
-
-`=` above is `reflect.DeepEqual` on decoded values. A client sees renderings: `View` maps each field group to
-what the API shows (`{}`/`[]`/`""` and "absent" render alike). Every clause survives the passage to the view
-except `mainKeep`: if the request spelled an empty value out, spec and annotations READ the same before and
-after while the decoded values differ, and the generation is bumped. -/
-
-variable {L' A' S' T' : Type} [DecidableEq L'] [DecidableEq A'] [DecidableEq S'] [DecidableEq T']
-
-/-- the full API-level statement for main-resource updates -/
-def MainUpdateInView (L A M S T L' A' S' T' : Type) [DecidableEq S] [DecidableEq A] [DecidableEq L'] [DecidableEq A']
-    [DecidableEq S'] [DecidableEq T'] : Prop :=
-  ∀ (r : Reg) (_ : WellShaped r) (_ : Consistent r) (mr : MetaRules L A M S T) (v : View L A S T L' A' S' T')
-    (sub old o' : Obj L A M S T), isI64 old.generation →
-    beforeUpdate r .main mr sub old = .ok o' → judgeMainUpdate r.served (v.obj old) (v.obj o') = []
+  | cons a as ih => exact ih _ (genOk_step sem r hw mr zero st a h)
 
 omit [DecidableEq L'] in
-/-- Whatever the view, the only clause an accepted main-resource update can break is "bumped although nothing
-    visible changed". -/
-theorem c20_view_only_spurious_bump [DecidableEq T] (r : Reg) (hw : WellShaped r) (hc : Consistent r)
-    (mr : MetaRules L A M S T) (v : View L A S T L' A' S' T') (sub old o' : Obj L A M S T)
-    (hg : isI64 old.generation) (h : beforeUpdate r .main mr sub old = .ok o') :
-    judgeMainUpdate r.served (v.obj old) (v.obj o') = [] ∨
-    (judgeMainUpdate r.served (v.obj old) (v.obj o') = [.mainKeep] ∧
-      changed (v.obj old) (v.obj o') = false ∧
-      (o'.spec ≠ old.spec ∨ o'.annotations ≠ old.annotations) ∧ o'.generation = old.generation + 1) := by
-  obtain ⟨hiff, hkeep⟩ := c20_main_update_generation r hw mr sub old o' hg h
-  have hst : r.served = true → o'.status = old.status := fun hs => c20_main_update_status r hw hc mr sub old o' hs h
-  have h1 : (!r.served || v.status o'.status == v.status old.status) = true := by
-    cases hs : r.served
-    · simp
-    · simp [hst hs]
-  unfold judgeMainUpdate changed check View.obj
-  simp only [h1]
-  by_cases hch : o'.spec ≠ old.spec ∨ o'.annotations ≠ old.annotations
-  · have hg1 := hiff.2 hch
-    by_cases hv : (v.spec o'.spec != v.spec old.spec || v.annotations o'.annotations != v.annotations old.annotations) = true
-    · left; simp [hv, hg1]
-    · right
-      have hv' : (v.spec o'.spec != v.spec old.spec || v.annotations o'.annotations != v.annotations old.annotations) = false := by
-        simpa using hv
-      refine ⟨?_, hv', hch, hg1⟩
-      simp [hv', hg1]
-      omega
-  · left
-    have h' : o'.spec = old.spec ∧ o'.annotations = old.annotations := by
-      constructor
-      · exact Classical.byContradiction fun hne => hch (Or.inl hne)
-      · exact Classical.byContradiction fun hne => hch (Or.inr hne)
-    simp [h'.1, h'.2, hkeep hch]
-
-/-- The view is faithful on a pair when values that render alike are equal (true when both objects went
-    through the JSON rendering once: the stored one always did). -/
-def Faithful (v : View L A S T L' A' S' T') (a b : Obj L A M S T) : Prop :=
-  (v.spec a.spec = v.spec b.spec → a.spec = b.spec) ∧
-  (v.annotations a.annotations = v.annotations b.annotations → a.annotations = b.annotations)
-
-/-- **C20 in the API's view, for requests without spelled-out empties** (`…_partial` of §6: the excluded
-    inputs are exactly those on which the view is not faithful). -/
-theorem c20_main_update_view_partial [DecidableEq T] (r : Reg) (hw : WellShaped r) (hc : Consistent r)
-    (mr : MetaRules L A M S T) (v : View L A S T L' A' S' T') (sub old o' : Obj L A M S T)
-    (hg : isI64 old.generation) (h : beforeUpdate r .main mr sub old = .ok o')
-    (hf : Faithful v o' old) :
-    judgeMainUpdate r.served (v.obj old) (v.obj o') = [] := by
-  rcases c20_view_only_spurious_bump r hw hc mr v sub old o' hg h with h0 | ⟨_, hnv, hch, _⟩
-  · exact h0
-  · exfalso
-    -- the view saw no change, so by faithfulness there was none
-    unfold changed View.obj at hnv
-    simp at hnv
-    rcases hch with h1 | h1
-    · exact h1 (hf.1 hnv.1)
-    · exact h1 (hf.2 hnv.2)
+/-- **C20 over histories**: after ANY list of API requests from the empty state, any further accepted
+    main-resource update obeys the generation rule and the status clause in the API's view — no hypothesis on
+    the stored generation is left. -/
+theorem c20_history (r : Reg) (hw : WellShaped r) (hc : Consistent r) (mr : MetaRules L A M S T)
+    (v : View L A S T L' A' S' T') (zero : T) (hist : List (Api L A M S T)) (cur sub o' : Obj L A M S T)
+    (hreach : apiRun v.sem r mr zero none hist = some cur)
+    (h : beforeUpdate v.sem r .main mr sub cur = .ok o') :
+    judgeMainUpdate r.served (v.obj cur) (v.obj o') = [] ∧ 1 ≤ cur.generation := by
+  have hok := genOk_run v.sem r hw mr zero none hist (fun _ h => by cases h) cur hreach
+  exact ⟨c20_judge_main r hw hc mr v sub cur o' hok.1 h, hok.2⟩
 
 end
-
-/-! ### Refutation of the full API-level statement (finding C20-empty-vs-absent-bumps-generation)
-
-Annotations `none` = absent, `some []` = spelled out as `{}`; both render as "no annotations". -/
-
-def witnessReg : Reg := { shape := ⟨true, true, true⟩, subStatus := true, optSubStatus := true }
-def witnessRules : MetaRules Unit (Option (List Nat)) Unit Nat Nat :=
-  { fixCreate := id, fixUpdate := fun n _ => n, validCreate := fun _ => true, validUpdate := fun _ _ => true }
-def witnessView : View Unit (Option (List Nat)) Nat Nat Unit (List Nat) Nat Nat :=
-  { labels := id, annotations := fun a => a.getD [], spec := id, status := id }
-def witnessStored : Obj Unit (Option (List Nat)) Unit Nat Nat :=
-  { labels := (), annotations := none, generation := 5, otherMeta := (), spec := 7, status := 3 }
-def witnessSubmitted : Obj Unit (Option (List Nat)) Unit Nat Nat := { witnessStored with annotations := some [] }
-
-theorem c20_view_full_false :
-    ¬ MainUpdateInView Unit (Option (List Nat)) Unit Nat Nat Unit (List Nat) Nat Nat := by
-  intro hfull
-  have h := hfull witnessReg (by decide) (by decide) witnessRules witnessView witnessSubmitted witnessStored
-    { witnessSubmitted with generation := 6 } (by decide) (by decide)
-  revert h
-  decide
 
 /-! ## The registrations of rest.go (regenerated on every run by tools/extract/c20) -/
 
@@ -354,28 +286,48 @@ theorem c20_registrations_consistent : ∀ f ∈ KG.Gen.C20.registrations, Consi
 /-- At least one kind is served with a status subresource (the property's quantifier is not empty). -/
 theorem c20_registrations_some_served : ∃ f ∈ KG.Gen.C20.registrations, (regOf f).served = true := by decide
 
-/-! ## Non-vacuity: the hypotheses are satisfiable by concrete, non-trivial requests -/
+/-! ## Non-vacuity: the hypotheses are satisfiable by concrete, non-trivial requests
 
-/-- a no-op main update of generation 5 is accepted and stays at 5 (the original witness: it went 5 → 6) -/
-example : beforeUpdate witnessReg .main witnessRules witnessStored witnessStored = .ok witnessStored := by decide
+Annotations `none` = absent, `some []` = spelled out as `{}`; both render as "no annotations". -/
+
+def witnessReg : Reg := { shape := ⟨true, true, true⟩, subStatus := true, optSubStatus := true }
+def witnessRules : MetaRules Unit (Option (List Nat)) Unit Nat Nat :=
+  { fixCreate := id, fixUpdate := fun n _ => n, validCreate := fun _ => true, validUpdate := fun _ _ => true }
+def witnessSem : Sem (Option (List Nat)) Nat (List Nat) Nat := { annotations := fun a => a.getD [], spec := id }
+def witnessView : View Unit (Option (List Nat)) Nat Nat Unit (List Nat) Nat Nat :=
+  { labels := id, status := id, sem := witnessSem }
+def witnessStored : Obj Unit (Option (List Nat)) Unit Nat Nat :=
+  { labels := (), annotations := none, generation := 5, otherMeta := (), spec := 7, status := 3 }
+
+/-- a no-op main update of generation 5 is accepted and stays at 5 (the first defect's witness: it went 5 → 6) -/
+example : beforeUpdate witnessSem witnessReg .main witnessRules witnessStored witnessStored = .ok witnessStored := by decide
+/-- `annotations: {}` against no annotations: accepted, stays at 5 (the second defect's witness: 5 → 6) -/
+example : beforeUpdate witnessSem witnessReg .main witnessRules { witnessStored with annotations := some [] } witnessStored
+    = .ok { witnessStored with annotations := some [] } := by decide
 /-- an annotation change is accepted and bumps 5 → 6 -/
-example : (beforeUpdate witnessReg .main witnessRules { witnessStored with annotations := some [1] } witnessStored).toOption.map
+example : (beforeUpdate witnessSem witnessReg .main witnessRules { witnessStored with annotations := some [1] } witnessStored).toOption.map
     (·.generation) = some 6 := by decide
 /-- a status update with another spec/status is accepted, spec restored, generation kept -/
-example : beforeUpdate witnessReg .status witnessRules { witnessStored with spec := 9, status := 4, generation := 77 } witnessStored
+example : beforeUpdate witnessSem witnessReg .status witnessRules { witnessStored with spec := 9, status := 4, generation := 77 } witnessStored
     = .ok { witnessStored with status := 4 } := by decide
 /-- creation with a client-supplied status and generation: both overwritten -/
 example : beforeCreate witnessReg witnessRules 0 { witnessStored with generation := 40 }
     = .ok { witnessStored with generation := 1, status := 0 } := by decide
 /-- at generation MaxInt64 a change is REJECTED (the wrapped value fails "must not be decremented") -/
-example : beforeUpdate witnessReg .main witnessRules { witnessStored with spec := 8 }
+example : beforeUpdate witnessSem witnessReg .main witnessRules { witnessStored with spec := 8 }
     { witnessStored with generation := 9223372036854775807 } = .error .invalid := by decide
 /-- a reachable state of `c20_history` -/
-example : apiRun witnessReg witnessRules 0 none [.create witnessStored, .update .main { witnessStored with spec := 8 },
+example : apiRun witnessSem witnessReg witnessRules 0 none [.create witnessStored, .update .main { witnessStored with spec := 8 },
     .update .status { witnessStored with status := 9 }] =
     some { witnessStored with spec := 8, status := 9, generation := 2 } := by decide
-/-- the view is faithful on objects without spelled-out empties -/
-example : Faithful witnessView { witnessStored with annotations := some [1] } witnessStored := by
-  constructor <;> intro h <;> revert h <;> decide
+/-- the judge is not trivially empty: it rejects the second defect's behaviour (5 → 6 on `{}`) … -/
+example : judgeMainUpdate true (witnessView.obj witnessStored)
+    (witnessView.obj { witnessStored with annotations := some [], generation := 6 }) = [.mainKeep] := by decide
+/-- … a missed bump, a changed status, an uncleared status on creation, a relabelling status update -/
+example : judgeMainUpdate true (witnessView.obj witnessStored)
+    (witnessView.obj { witnessStored with spec := 8, status := 4 }) = [.mainStatus, .mainBump] := by decide
+example : judgeCreate true (0 : Nat) (witnessView.obj { witnessStored with generation := 5 }) = [.createGeneration, .createStatus] := by decide
+example : judgeStatusUpdate (L := Nat) (A := Nat) (M := Unit) (S := Nat) (T := Nat) ⟨1, 0, 5, (), 7, 3⟩ ⟨2, 0, 6, (), 8, 3⟩ =
+    [.statusSpec, .statusLabels, .statusGeneration] := by decide
 
 end KG.Props.C20
